@@ -31,6 +31,8 @@ def stage_and_site(task, res):
     de = res.get("de", ["?", ""])
     if de[0] == "panic":
         return first, "panic", wirelib.loc_of(de[1])
+    if res.get("ds", [""])[0] == "panic":
+        return "Proof::read_from(ReadAdapter)", "panic", wirelib.loc_of(res["ds"][1])
     for v, o in sorted((res.get("ve") or {}).items()):
         if o[0] == "panic":
             return "verify", "panic", wirelib.loc_of(o[1])
@@ -90,6 +92,11 @@ def build_tasks(ck, rows, proofs, tier):
                     pt.append({"k": "cross", "c": a, "src": b, "e": m["e"], "acc": C04.CTX_VARIANTS})
                     pm.append({"c": a, "span": "proof", "dec": "Proof", "cls": "cross." + m["cls"], "fld": m["fld"]})
     n_mut = len(tasks)
+    # proofs are also read from files and sockets: every mutated / random proof image is decoded through the
+    # streaming reader as well (one more operation that must return a value or an error)
+    for t in tasks + rt:
+        if t["k"] in ("mut", "raw"):
+            t["stream"] = True
     return (tasks + dt + rt + pt, meta + dm + rm + pm,
             dict(mutations=n_mut, generated=len(allm), component_inputs=len(dt), random_inputs=len(rt), other_public_inputs=len(pt)))
 
